@@ -8,6 +8,7 @@ import Mahotas.Proofs.C10IWavelet
 import Mahotas.Proofs.C10Graham
 import Mahotas.Proofs.C10Thin
 import Mahotas.Proofs.C10Cw
+import Mahotas.Proofs.C10Line
 open Mahotas Mahotas.C10
 
 /-! ## general index arithmetic -/
@@ -488,7 +489,23 @@ theorem C10_graham_in_bounds (cmp1 cmp2 : Nat → Nat → Bool) (n : Nat) :
     (grahamRun cmp1 cmp2 n).2.2 = true :=
   grahamRun_ok cmp1 cmp2 n
 
+/-- **B8, a line of an n-D array.** `spline_filter1d` works on `line = &*iter` at the positions `p` whose
+coordinate along `axis` is 0 and dereferences `line[stride(axis)·ll]`; `haar` / `wavelet` work on
+`data = array.data(y)` (position `(y, 0)`, `axis = 1`) and dereference `data[step·x]`. For every rank, shape,
+integer element strides (any layout), position `p` inside the array with `p[axis] = 0` and every axis
+coordinate `0 ≤ ll < shape[axis]` — which is what `C10_spline_filter1d_in_bounds`, `C10_haar_in_bounds` and
+`C10_wavelet_in_bounds` establish — the address `Σ stride·p + stride(axis)·ll` is the address of the position
+`p` with its `axis` coordinate set to `ll`, which is inside the array. -/
+theorem C10_line_address (shape : List Nat) (strides p : List Int) (axis : Nat) (ll : Int)
+    (hp : inside shape p = true) (hs : strides.length = shape.length) (ha : axis < shape.length)
+    (h0 : p.getD axis 0 = 0) (hl0 : 0 ≤ ll) (hl1 : ll < ((shape.getD axis 0 : Nat) : Int)) :
+    inside shape (p.set axis ll) = true ∧
+    dot strides p + strides.getD axis 0 * ll = dot strides (p.set axis ll) :=
+  line_address shape strides p axis ll hp hs ha h0 hl0 hl1
+
 /-! non-vacuity (B8) -/
+example : inside [3, 4] [2, 0] = true ∧ dot [4, 1] [2, 0] + ([4, 1] : List Int).getD 1 0 * 3 = 11 ∧
+    inside [3, 4] ([2, 0].set 1 3) = true := by decide
 example : zsAccesses [4, 5] (cStrides [4, 5]) 3 [-1, 3] =
     [8, 9, 8, 7, 3, 4, 3, 2, 8, 9, 8, 7, 13, 14, 13, 12] := by decide
 example : zsStarts .reflect 3 [4, 5] [0, 4] = some [-1, 3] ∧ zsStarts .constant 3 [4, 5] [-1, 4] = none ∧
